@@ -268,10 +268,10 @@ func VerifHarness_C07_O3() {
 			Index:                verifNondetInt("index"),
 			SelfParentIndex:      verifNondetInt("selfParentIndex"),
 			OtherParentIndex:     verifNondetInt("otherParentIndex"),
-			Timestamp:            verifNondetInt64("timestamp"),
 		},
 		Signature: "sig",
 	}
+	verifSetInt(&we.Body.Timestamp, verifNondetInt64("timestamp"))
 	nsig := verifChoice("nsig", 3)
 	if nsig > 0 {
 		we.Body.BlockSignatures = []WireBlockSignature{}
@@ -323,7 +323,7 @@ func VerifHarness_C07_O3() {
 		} else {
 			verifAssert("no-other-parent", ev.OtherParent() == "")
 		}
-		verifAssert("index-copied", ev.Index() == we.Body.Index && ev.Body.Timestamp == we.Body.Timestamp)
+		verifAssert("index-copied", ev.Index() == we.Body.Index && ev.Body.Timestamp == int64(we.Body.Timestamp))
 		verifAssert("block-signatures-nilness", (ev.Body.BlockSignatures == nil) == (we.Body.BlockSignatures == nil) && len(ev.Body.BlockSignatures) == len(we.Body.BlockSignatures))
 		for i, bs := range ev.Body.BlockSignatures {
 			verifAssert(fmt.Sprintf("block-signature-%d-attributed-to-creator", i), string(bs.Validator) == string(ev.Body.Creator) && bs.Index == we.Body.BlockSignatures[i].Index)
